@@ -525,6 +525,15 @@ func knownDefectReplays(st *Stats) {
 			st.Fail("known-I-write-to-sibling-namespace-export-not-rewritten", map[string]string{"scenario": "known-I", "typescript": tsI, "esbuild_output": out, "reference_js": refI}, res[0].String(), res[1].String())
 		}
 	}
+	// J: valid JavaScript rejected by the ts loader when lowering to es2015
+	jsJ := "x = a ? ([...[1]]) : c;\n"
+	oj := api.TransformOptions{Loader: api.LoaderJS, LogLevel: api.LogLevelSilent, Target: api.ES2015}
+	ot := api.TransformOptions{Loader: api.LoaderTS, LogLevel: api.LogLevelSilent, Target: api.ES2015}
+	if a, ea := transformText(jsJ, oj); ea == "" {
+		if b, eb := transformText(jsJ, ot); eb != "" || a != b {
+			st.Fail("known-J-parenthesised-spread-after-question-rejected-by-ts-loader", map[string]string{"scenario": "known-J", "javascript": jsJ, "options": "target=es2015"}, eb+b, a)
+		}
+	}
 	// H: ExpectGreaterThan/maybeExpandEquals never forms "===" after splitting ">="
 	typed, untyped := "x = a as Array<number>===b;\n", "x = a ===b;\n"
 	jsOut, _ := transformText(untyped, api.TransformOptions{Loader: api.LoaderJS, LogLevel: api.LogLevelSilent})
